@@ -32,6 +32,7 @@ namespace d2 = tbb::detail::d2;
 static std::vector<d1::task*> g_submitted;          // tasks handed to r1::submit since the last drain
 static std::exception_ptr g_exc;                    // exception stored "in the context"
 static long g_alloc_live = 0;
+static bool g_foreign_flag = false;                 // the current call is made by a thread outside the graph's arena (gateway calls)
 
 namespace tbb { namespace detail { namespace r1 {
 void* __TBB_EXPORTED_FUNC allocate(d1::small_object_pool*& pool, std::size_t bytes) {
@@ -46,7 +47,7 @@ void __TBB_EXPORTED_FUNC initialize(d1::task_arena_base&) {}
 void __TBB_EXPORTED_FUNC terminate(d1::task_arena_base&) {}
 bool __TBB_EXPORTED_FUNC attach(d1::task_arena_base&) { return true; }
 void __TBB_EXPORTED_FUNC execute(d1::task_arena_base&, d1::delegate_base& d) { d(); }
-d1::slot_id __TBB_EXPORTED_FUNC execution_slot(const d1::task_arena_base&) { return 0; }
+d1::slot_id __TBB_EXPORTED_FUNC execution_slot(const d1::task_arena_base&) { return g_foreign_flag ? d1::slot_id(-1) : d1::slot_id(0); }
 void __TBB_EXPORTED_FUNC initialize(d1::task_group_context&) {}
 void __TBB_EXPORTED_FUNC destroy(d1::task_group_context&) {}
 void __TBB_EXPORTED_FUNC reset(d1::task_group_context& c) { c.my_cancellation_requested.store(0); g_exc = nullptr; }
@@ -210,6 +211,40 @@ struct MFuncNode : Node {
         if (auto* f = dynamic_cast<d2::forward_task_bypass<FIB>*>(t)) { if (&f->my_node == static_cast<FIB*>(&n)) return "f" + S(id); }
         return "";
     }
+};
+
+// async_node: the body only talks to the gateway (optionally reserve_wait); the script later plays the foreign thread
+struct ABody {
+    int id; bool resv; long* gres;
+    template <class GW> void operator()(const int& v, GW& gw) const {
+        ev("A" + S(id) + ":" + S(v));
+        if (resv) { gw.reserve_wait(); ++*gres; ev("W" + S(id)); }
+    }
+};
+struct AsyncBase : Node {
+    long gres = 0;
+    virtual bool gput(int v) = 0;
+    virtual void grel() = 0;
+};
+template <class P>
+struct AsyncNodeW : AsyncBase {
+    typedef async_node<int, int, P> AN;
+    typedef typename AN::output_ports_type Ports;
+    typedef d2::multifunction_input<int, Ports, P, A> MI;
+    typedef d2::function_input_base<int, P, A, MI> FIB;
+    AN n;
+    AsyncNodeW(graph& g, int i, size_t maxc, bool resv) : n(g, maxc, ABody{i, resv, &gres}) { id = i; g_fib_id[(const void*)static_cast<FIB*>(&n)] = i; }
+    std::string kind() const override { return "async"; }
+    receiver<int>* rcv() override { return &n; }
+    sender<int>* snd() override { return &output_port<0>(n); }
+    std::string dump() override { return dump_func(id, static_cast<FIB&>(n), output_port<0>(n).successors().my_successors) + " g" + S(gres); }
+    std::string name_of(d1::task* t) override {
+        if (auto* b = dynamic_cast<d2::apply_body_task_bypass<FIB, int>*>(t)) { if (&b->my_node == static_cast<FIB*>(&n)) return "b" + S(id) + "." + S(b->my_input); }
+        if (auto* f = dynamic_cast<d2::forward_task_bypass<FIB>*>(t)) { if (&f->my_node == static_cast<FIB*>(&n)) return "f" + S(id); }
+        return "";
+    }
+    bool gput(int v) override { g_foreign_flag = true; bool r = n.gateway().try_put(v); g_foreign_flag = false; return r; }
+    void grel() override { g_foreign_flag = true; n.gateway().release_wait(); g_foreign_flag = false; }
 };
 
 struct InputNodeW : Node {
@@ -416,7 +451,7 @@ static int run_sim() {
         unsigned long a = 0, b = 0, c = 0;
         auto valid = [&](unsigned long n) { return n < h.nodes.size(); };
         auto is_kind = [&](unsigned long n, const char* k) { return valid(n) && h.nodes[n]->kind() == k; };
-        auto is_funcish = [&](unsigned long n) { return is_kind(n, "func") || is_kind(n, "mfunc"); };
+        auto is_funcish = [&](unsigned long n) { return is_kind(n, "func") || is_kind(n, "mfunc") || is_kind(n, "async"); };
         if (w[0] == "node" && w.size() >= 3 && !h.going && to_u(w[1], a, 1000) && a == h.nodes.size()) {
             int id = (int)a;
             Node* nd = nullptr;
@@ -428,6 +463,8 @@ static int run_sim() {
                 else nd = new FuncNode<rejecting_lightweight, BodyNT>(*h.g, id, b);
             } else if (w[2] == "mfunc" && w.size() == 5 && to_u(w[3], b, 1000) && (w[4] == "q" || w[4] == "r")) {
                 if (w[4] == "q") nd = new MFuncNode<queueing>(*h.g, id, b); else nd = new MFuncNode<rejecting>(*h.g, id, b);
+            } else if (w[2] == "async" && w.size() == 6 && to_u(w[3], b, 1000) && (w[4] == "q" || w[4] == "r") && (w[5] == "0" || w[5] == "1")) {
+                if (w[4] == "q") nd = new AsyncNodeW<queueing>(*h.g, id, b, w[5] == "1"); else nd = new AsyncNodeW<rejecting>(*h.g, id, b, w[5] == "1");
             } else if (w[2] == "input" && w.size() == 5 && to_u(w[3], b, 100000) && to_u(w[4], c, 100000)) {
                 nd = new InputNodeW(*h.g, id, (int)b, (int)c);
             } else if (w[2] == "cont" && w.size() == 4 && (w[3] == "0" || w[3] == "1")) {
@@ -470,6 +507,13 @@ static int run_sim() {
         } else if (w[0] == "hook" && w.size() == 3 && to_u(w[1], a, 1000) && is_kind(a, "proxy") && parse_task_name(w[2]) && w[2][0] == 'b' &&
                    strtoul(w[2].c_str() + 1, nullptr, 10) == (unsigned long)static_cast<ProxyW*>(h.nodes[a].get())->p.tgt) {
             static_cast<ProxyW*>(h.nodes[a].get())->p.hook = w[2];
+            out = h.render("ok"); done = true;
+        } else if (w[0] == "gput" && w.size() == 3 && to_u(w[1], a, 1000) && to_u(w[2], b, 1000000) && is_kind(a, "async")) {
+            bool r = static_cast<AsyncBase*>(h.nodes[a].get())->gput((int)b);
+            out = h.render(r ? "1" : "0"); done = true;
+        } else if (w[0] == "grel" && w.size() == 2 && to_u(w[1], a, 1000) && is_kind(a, "async") && static_cast<AsyncBase*>(h.nodes[a].get())->gres > 0) {
+            AsyncBase* an = static_cast<AsyncBase*>(h.nodes[a].get());
+            an->grel(); --an->gres;
             out = h.render("ok"); done = true;
         } else if (w[0] == "cput" && w.size() == 2 && to_u(w[1], a, 1000) && (is_kind(a, "cont") || is_kind(a, "bc"))) {
             bool r = h.nodes[a]->crcv()->try_put(continue_msg());
